@@ -686,7 +686,7 @@ func runC05Conformance(c *Ctx) {
 						replies = append(replies, t.newRsp("", []byte("r"), 0))
 					}
 					impl.reset(hScript{RecvN: -1, Replies: replies, Err: herr, ErrAfter: after})
-					ctx, cancel := context.WithTimeout(context.Background(), 10*time.Second)
+					ctx, cancel := context.WithTimeout(context.Background(), 120*time.Second)
 					var gerr error
 					nReplies := 0
 					if shape == "unary" {
@@ -707,7 +707,12 @@ func runC05Conformance(c *Ctx) {
 						}
 						gerr = err
 					}
+					timedOut := ctx.Err() != nil
 					cancel()
+					if timedOut {
+						r.CapHit("a real-transport call did not finish within 120 s (machine load); not counted")
+						continue
+					}
 					validated++
 					r.Eval(1)
 					st, _ := status.FromError(gerr)
@@ -768,7 +773,7 @@ func runC06Conformance(c *Ctx) {
 				impl.reset(hScript{RecvN: -1, Replies: replies})
 				method := map[string]string{"cs": "CS", "bidi": "Bidi"}[shape]
 				gotReplies := 0
-				ctx, cancel := context.WithTimeout(context.Background(), 10*time.Second)
+				ctx, cancel := context.WithTimeout(context.Background(), 120*time.Second)
 				var callErr error
 				switch transport {
 				case "grpc", "grpc-gzip":
@@ -842,7 +847,12 @@ func runC06Conformance(c *Ctx) {
 						}
 					}
 				}
+				timedOut := ctx.Err() != nil
 				cancel()
+				if timedOut {
+					r.CapHit("a real-transport call did not finish within 120 s (machine load); not counted")
+					continue
+				}
 				validated++
 				r.Eval(1)
 				lg := impl.log
